@@ -1303,6 +1303,10 @@ class Interp:
         v0 = core(v)
         if isinstance(v0, StructV) and v0.variant in ("Ok", "Some") and "0" in v0.fields:
             return v0.fields["0"]
+        if isinstance(v0, CallV) and v0.callee in ("std::result::Result::map", "std::option::Option::map") and len(v0.args) == 2 \
+                and isinstance(v0.args[1], Via) and v0.args[1].name == "closure-result":
+            # `r.map(f)?` is f(payload of r) on the paths that continue
+            return v0.args[1].inner
         if isinstance(v0, PhiV):
             alts = []
             for c, x in v0.alts:
@@ -1650,7 +1654,10 @@ class Interp:
                 self.inlined.add(tgt)
                 return Via("inlined", self.call_body(tgt, body, args), tgt)
             return CallV(tgt, args, n, inst)
-        if last == "collect" and len(args) == 1 and isinstance(a0, MutV) and isinstance(core(a0.base), CallV) and core(a0.base).callee == "std::vec::Vec::new" and a0.ops:
+        if last == "collect" and len(args) == 1 and isinstance(a0, MutV) and getattr(a0, "unrolled", None):
+            # the list is materialised: each kept element is a `push` onto the collection that is built
+            for keep, payload in a0.unrolled:
+                self.muts.append((a0, "method:unrolled::std::vec::Vec::push", [payload], n, self.cur_fn(), And(self.cur_cond(), keep)))
             return a0
         # ---- transparent adaptors ----
         if last == "bytes" and len(args) == 1 and "impl str>::bytes" in callee:
@@ -1728,10 +1735,20 @@ class Interp:
                         payload = somes_[0][1] if len(somes_) == 1 else (PhiV(somes_) if somes_ else Unknown("none"))
                 if keep is False:
                     continue
-                c_full = And(self.cur_cond(), keep)
                 res.ops.append(("call", "push", payload))
-                self.muts.append((res, "method:unrolled::std::vec::Vec::push", [payload], n, self.cur_fn(), c_full))
+                res.unrolled = getattr(res, "unrolled", []) + [(keep, payload)]
             return res
+        # consuming an unrolled list element by element: `for_each` runs the closure once per kept element, under the
+        # condition that keeps it
+        if last == "for_each" and len(args) == 2 and isinstance(core(args[1]), ClosureV) and isinstance(a0, MutV) and getattr(a0, "unrolled", None):
+            cl = core(args[1])
+            for keep, payload in a0.unrolled:
+                self.ctx.append(("cond", keep))
+                try:
+                    self.call_closure(cl, [payload])
+                finally:
+                    self.ctx.pop()
+            return UNIT
         # `find_map` over a literal table: unroll it (first element for which the closure yields Some)
         if last == "find_map" and len(args) == 2 and isinstance(core(args[1]), ClosureV) and isinstance(core(args[0]), ArrayV) and 0 < len(core(args[0]).items) <= 16:
             cl = core(args[1])
